@@ -28,6 +28,8 @@ type Engine struct {
 	repo        string
 	loadErrs    []string
 	usedWf      bool
+	typeInvs    map[string][]*typeInvClause
+	usedTypeInv map[string]bool
 }
 
 func (eng *Engine) isPureFunc(f *types.Func) bool {
@@ -87,7 +89,7 @@ func loadEngine(repo string, patterns []string) (*Engine, error) {
 		return nil, err
 	}
 	eng := &Engine{fset: fset, pkgs: pkgs, funcs: map[*types.Func]*FuncInfo{}, byKey: map[string]*FuncInfo{},
-		contracts: map[*types.Func]*Contract{}, tm: newTypeMap(), axioms: map[string][]*Clause{}, usedTrusted: map[string]string{}, repo: repo}
+		contracts: map[*types.Func]*Contract{}, tm: newTypeMap(), axioms: map[string][]*Clause{}, usedTrusted: map[string]string{}, repo: repo, usedTypeInv: map[string]bool{}}
 	for _, p := range pkgs {
 		for _, e := range p.Errors {
 			eng.loadErrs = append(eng.loadErrs, e.Error())
@@ -207,6 +209,29 @@ func loadEngine(repo string, patterns []string) (*Engine, error) {
 	// axioms: checked at package scope
 	for _, p := range pkgs {
 		for _, c := range eng.axioms[p.PkgPath] {
+			if strings.HasPrefix(c.Kind, "typeinv:") {
+				tn := strings.TrimPrefix(c.Kind, "typeinv:")
+				src := "func(self *" + tn + ") bool { return " + c.Text + " }"
+				e, err := parseClauseExpr(eng.fset, &Clause{Text: src, Line: c.Line})
+				if err != nil {
+					return eng, err
+				}
+				c.Info = newInfo()
+				if err := types.CheckExpr(eng.fset, p.Types, token.NoPos, e, c.Info); err != nil {
+					return eng, fmt.Errorf("%s: typeinv %q: %v", c.Line, c.Text, err)
+				}
+				c.Expr = e
+				obj := p.Types.Scope().Lookup(tn)
+				if obj == nil {
+					return eng, fmt.Errorf("%s: typeinv: unknown type %s", c.Line, tn)
+				}
+				if eng.typeInvs == nil {
+					eng.typeInvs = map[string][]*typeInvClause{}
+				}
+				key := types.TypeString(obj.Type(), nil)
+				eng.typeInvs[key] = append(eng.typeInvs[key], &typeInvClause{c: c, pkg: p})
+				continue
+			}
 			e, err := parseClauseExpr(eng.fset, c)
 			if err != nil {
 				return eng, err
@@ -220,6 +245,11 @@ func loadEngine(repo string, patterns []string) (*Engine, error) {
 	}
 	eng.computePurity()
 	return eng, nil
+}
+
+type typeInvClause struct {
+	c   *Clause
+	pkg *packages.Package
 }
 
 // collectLoops returns, in source order (pre-order), a position inside each loop body
@@ -434,6 +464,7 @@ func (eng *Engine) verifyFuncCase(ct *Contract, res *FuncResult, caseIdx int) {
 					f.results = append(f.results, obj)
 				} else {
 					s.env[obj] = x.havocParam(s, obj)
+					f.paramObjs = append(f.paramObjs, obj)
 					if nm.Name == ct.CaseVar {
 						caseObj = obj
 					}
@@ -468,6 +499,9 @@ func (eng *Engine) verifyFuncCase(ct *Contract, res *FuncResult, caseIdx int) {
 	// axioms about globals (all packages: globals of canvas are read from renderers too)
 	for _, p := range eng.pkgs {
 		for _, ax := range eng.axioms[p.PkgPath] {
+			if strings.HasPrefix(ax.Kind, "typeinv:") {
+				continue
+			}
 			x.clauseInfo = append(x.clauseInfo, ax.Info)
 			x.frames = append(x.frames, &Frame{fi: fi, info: p.TypesInfo, inlined: true})
 			// "Global == literal" binds the global's entry value directly
@@ -585,5 +619,56 @@ func (r *FuncResult) shortKey(fi *FuncInfo) string { return fi.Key }
 func (x *Exec) havocParam(s *State, obj types.Object) *Term {
 	v := Var("p_"+sanitizeSym(obj.Name()), x.eng.tm.sortOf(obj.Type()))
 	s.assume(x.typeInv(s, v, obj.Type(), 0))
+	x.assumeObjInv(s, v, obj.Type())
 	return v
+}
+
+// assumeObjInv assumes the declared object invariants (//@ typeinv) of *T for the reference v (if non-nil).
+// These are assumptions about the data structure (listed in the evidence), not proved globally.
+func (x *Exec) assumeObjInv(s *State, v *Term, t types.Type) {
+	pt, ok := t.Underlying().(*types.Pointer)
+	if !ok || x.inObjInv || v.hasBound {
+		return
+	}
+	invs := x.eng.typeInvs[types.TypeString(pt.Elem(), nil)]
+	if len(invs) == 0 {
+		return
+	}
+	key := fmt.Sprintf("%d", v.id)
+	if x.objInvSeen == nil {
+		x.objInvSeen = map[string]bool{}
+	}
+	if x.objInvSeen[key] {
+		// still add: the state may differ; cheap duplicates are filtered by assume()
+	}
+	x.objInvSeen[key] = true
+	x.inObjInv = true
+	defer func() { x.inObjInv = false }()
+	for _, ti := range invs {
+		fl := ti.c.Expr.(*ast.FuncLit)
+		self := ti.c.Info.Defs[fl.Type.Params.List[0].Names[0]]
+		saved, had := s.env[self]
+		s.env[self] = v
+		x.clauseInfo = append(x.clauseInfo, ti.c.Info)
+		x.frames = append(x.frames, &Frame{fi: x.frames[0].fi, info: ti.pkg.TypesInfo, inlined: true})
+		x.dry++
+		c := s.clone()
+		c.assume(Not(Eq(v, IntLit(0))))
+		t := x.evalCond(c, fl.Body.List[0].(*ast.ReturnStmt).Results[0])
+		x.dry--
+		x.frames = x.frames[:len(x.frames)-1]
+		x.clauseInfo = x.clauseInfo[:len(x.clauseInfo)-1]
+		if had {
+			s.env[self] = saved
+		} else {
+			delete(s.env, self)
+		}
+		for k, hv := range c.heap {
+			if _, ok := s.heap[k]; !ok {
+				s.heap[k] = hv
+			}
+		}
+		s.assume(Implies(Not(Eq(v, IntLit(0))), t))
+		x.eng.usedTypeInv[ti.c.Kind+": "+ti.c.Text] = true
+	}
 }
